@@ -247,6 +247,9 @@ def check_c14(pid, tier, seed, replay):
         lines = vlib.read_lines(os.path.join(d, "trace.ndjson"))
         if len(stats.get("bigBlocks") or []) < sz["big"]:
             raise Infra("the driver recorded %s big blocks, %d wanted" % (stats.get("bigBlocks"), sz["big"]))
+        if not stats.get("ownGasBeforeEth"):
+            raise Infra("no recorded block has an executed Ethereum tx behind a non-Ethereum tx that ran out of its own gas limit (code 11)")
+        log("executed Ethereum txs behind a Cosmos-lane tx failing with code 11 from its own gas limit (no block gas overflow): %d" % stats["ownGasBeforeEth"])
         log("big blocks (Ethereum txs): %s; every crash point inside them: %d schedules" % (stats["bigBlocks"], stats["bigCrashPoints"]))
         log("recorded %d chains, %d blocks, %d Ethereum txs; %d schedules (%d crashes) and %d RPC queries; %d events" % (
             stats["chains"], stats["blocks"], stats["ethTxs"], stats["schedules"], stats["crashes"], stats["rpcQueries"], stats["events"]))
@@ -306,6 +309,7 @@ def check_c14(pid, tier, seed, replay):
         v.cov["samples"] = stats["pairs"][:6] + stats["viewShapes"][:6]
         v.cov["exhaustive"] = False  # the space of chains is sampled; see next field
         v.cov["every_single_crash_point_of_every_recorded_chain"] = bool(sz["allcrash"])
+        v.cov["eth_txs_behind_own_gas_code11_cosmos_tx"] = stats["ownGasBeforeEth"]
         v.cov["big_blocks"] = {"ethereum_txs": stats["bigBlocks"], "crash_points_all_enumerated": stats["bigCrashPoints"]}
         v.cov["schedules"] = {"total": stats["schedules"], "crashes": stats["crashes"], "go_side_mismatch_with_uninterrupted_run": stats["goMismatch"]}
         st, sterr = self_test(w, remaining if final is not None else lines)
